@@ -60,6 +60,18 @@ def check_line(case, ev):
         return core.exc_finding(exc, case, "ctor/")
     if via == "direct":
         out, exc = guarded(anonymize_as_numbers, an, line)
+    elif via == "io-pwd":
+        # password anonymization switched on as well: the AS oracle is applied between the output of
+        # a passwords-only anonymizer (trusted here; C07-C09 judge it) and the combined output
+        from netconan.anonymize_files import FileAnonymizer
+
+        base, exc = guarded(lambda: core.run_io(FileAnonymizer(anon_pwd=True, anon_ip=False, salt=salt), line + "\n"))
+        if exc is not None:
+            return core.exc_finding(exc, case, "ctor/")
+        out, exc = guarded(lambda: core.run_io(FileAnonymizer(anon_pwd=True, anon_ip=False, salt=salt, as_numbers=list(nums)), line + "\n"))
+        if exc is None:
+            line = base[:-1] if base.endswith("\n") else base
+            out = out[:-1] if out.endswith("\n") else out
     else:
         from netconan.anonymize_files import FileAnonymizer
 
@@ -200,7 +212,11 @@ def _case(draw):
         segs.insert(draw(st.integers(0, len(segs))), draw(st.sampled_from([" 10.1.10.1 ", " 1.10 ", " 2.10", "rd 65001.100 ", " 3.65001 ", "10.174.0.1", " 1.0.1 ", "v1.10.2"])))
     if draw(st.booleans()):
         segs[-1] = draw(st.sampled_from(["", "", " ", ";"]))
-    return {"nums": nums, "line": "".join(segs), "salt": draw(st.one_of(st.text(max_size=6), st.sampled_from(["", "s", "TESTSALT"]))), "via": draw(st.sampled_from(["direct", "direct", "io"]))}
+    via = draw(st.sampled_from(["direct", "direct", "io", "io-pwd"]))
+    line = "".join(segs)
+    if via == "io-pwd":
+        line = line + draw(st.sampled_from([" password Zq9xWv", "\tkey 7 0822455D0A16", "  secret 5 $1$abcd$0123456789012345678901", " ", ""]))
+    return {"nums": nums, "line": line, "salt": draw(st.one_of(st.text(max_size=6), st.sampled_from(["", "s", "TESTSALT"]))), "via": via}
 
 
 def t_lines(shard, nshards, seed, ev, known, n=1000):
